@@ -163,10 +163,19 @@ func verifRstFrameTxt(fr wire.Frame) string {
 
 // Reject is what Conn.dropEncryptionLevel(0-RTT) does as far as the framer is concerned: the streams map closes
 // every stream (nothing left to send; the objects are forgotten), then framer.Handle0RTTRejection.
+//
+// The stream objects are forgotten on the control-frame side too: the stream that announces control frames under the
+// same id afterwards is a NEW stub. A forgotten stub KEEPS the frames it has queued (closeForShutdown does not take a
+// queued RESET_STREAM / STOP_SENDING / MAX_STREAM_DATA back): whether they are still sent is up to the framer - it is
+// if Handle0RTTRejection leaves streamsWithControlFrames alone (the framer then still points to the old stub, and
+// AddStreamWithControlFrames of the new one under the same id is a no-op).
 func (v *VerifRstFramer) Reject() {
 	for id, s := range v.streams {
 		s.pending = 0
 		delete(v.streams, id)
+	}
+	for id := range v.ctls {
+		delete(v.ctls, id)
 	}
 	v.f.Handle0RTTRejection()
 }
